@@ -183,23 +183,11 @@ func (a *UDPAssociation) ReadLoop() {
 			continue
 		}
 
-		// Update actual client address on first datagram
-		a.mu.Lock()
-		if a.ActualClientAddr == nil {
-			a.ActualClientAddr = clientAddr
-		}
-		a.mu.Unlock()
-
-		// Verify client address if expected address was specified
-		a.mu.RLock()
-		expected := a.ExpectedClientAddr
-		a.mu.RUnlock()
-
-		if expected != nil && expected.IP != nil && !expected.IP.IsUnspecified() {
-			if !clientAddr.IP.Equal(expected.IP) {
-				// Ignore datagrams from unexpected addresses
-				continue
-			}
+		// Only the client that owns the association may use the relay.
+		// Datagrams from any other source are ignored and never become the
+		// reply address.
+		if !a.acceptClient(clientAddr) {
+			continue
 		}
 
 		// Parse SOCKS5 UDP header
@@ -221,6 +209,43 @@ func (a *UDPAssociation) ReadLoop() {
 			handler.RelayUDPDatagram(streamID, destAddr, header.Port, header.AddrType, header.RawAddr, payload)
 		}
 	}
+}
+
+// acceptClient reports whether src is the UDP endpoint of the client that owns
+// the association and, on the first datagram from that client, records it as
+// the address replies are sent to.
+//
+// The client is identified by the IP address declared in the UDP ASSOCIATE
+// request (RFC 1928 section 6) or, if the request left it unspecified, by the
+// peer IP of the TCP control connection. Its port is the declared one or, if
+// none was declared, the source port of its first datagram. Once the address is
+// known only datagrams from exactly that address are accepted.
+func (a *UDPAssociation) acceptClient(src *net.UDPAddr) bool {
+	a.mu.Lock()
+	defer a.mu.Unlock()
+
+	if a.ActualClientAddr != nil {
+		return src.Port == a.ActualClientAddr.Port && src.IP.Equal(a.ActualClientAddr.IP)
+	}
+
+	expected := a.ExpectedClientAddr
+	var ownerIP net.IP
+	if expected != nil && expected.IP != nil && !expected.IP.IsUnspecified() {
+		ownerIP = expected.IP
+	} else if a.TCPConn != nil {
+		if tcpAddr, ok := a.TCPConn.RemoteAddr().(*net.TCPAddr); ok {
+			ownerIP = tcpAddr.IP
+		}
+	}
+	if ownerIP != nil && !src.IP.Equal(ownerIP) {
+		return false
+	}
+	if expected != nil && expected.Port != 0 && src.Port != expected.Port {
+		return false
+	}
+
+	a.ActualClientAddr = src
+	return true
 }
 
 // WriteToClient sends a datagram back to the SOCKS5 client.
